@@ -1,7 +1,7 @@
 (** C05 -- grammar text parses to the tree its syntax prescribes (print/parse round trip), with the
     parser halves of C13 (spans) and C14 (layout).  Statements only; proofs live in Proofs/. *)
-From CG Require Import Base.Prelude Model.Ast Model.Lexer Model.Parser Spec.Printer
-  Proofs.GrammarRound Proofs.ExprPos.
+From CG Require Import Base.Prelude Model.Ast Model.Lexer Model.Parser Spec.Printer Spec.Spans
+  Proofs.GrammarRound Proofs.ExprPos Proofs.SpanSound.
 From CGgen Require Import Consts.
 
 (** For every printable grammar tree and every layout, the model of [Grammar::parse] with the span
@@ -62,6 +62,26 @@ Proof. exact loc_end_true. Qed.
 Check C13_printer_positions_true :
   forall e lay ctx p, snd (loc repaired lay ctx e p) = adv_str (txt lay ctx e) p.
 Print Assumptions C13_printer_positions_true.
+
+(** Parser half of C13 for *every* input text, printed or not, accepted or not (lexer with the span
+    reset repaired): each span of the tree, and the span of the syntax error, consists of true
+    positions of the text ([Spec/Spans.v]: start = position after some prefix, end = position
+    after a longer prefix). *)
+Theorem C13_spans_sound_any_input :
+  forall s g, parse_with repaired s = Ok g -> Forall (stmt_ok s) g.
+Proof. exact parse_spans_sound. Qed.
+Check C13_spans_sound_any_input :
+  forall s g, parse_with repaired s = Ok g -> Forall (stmt_ok s) g.
+Print Assumptions C13_spans_sound_any_input.
+
+Theorem C13_error_span_sound_any_input :
+  forall s sp, parse_with repaired s = Err sp ->
+    exists pre rest, s = append pre rest /\ sp = from_machine (mkin rest (adv_str pre pos0)).
+Proof. exact parse_error_sound. Qed.
+Check C13_error_span_sound_any_input :
+  forall s sp, parse_with repaired s = Err sp ->
+    exists pre rest, s = append pre rest /\ sp = from_machine (mkin rest (adv_str pre pos0)).
+Print Assumptions C13_error_span_sound_any_input.
 
 (** ... and the lexer with both resets (parse.rs at the pinned commit) violates it: after the
     escaped dot, [<FOO>] is reported at 1:3 instead of 1:10. *)
